@@ -601,7 +601,7 @@ async def _timer(
 
         # Reset success/failure retry counters & timers if it has succeeded. Keep it if failed.
         # Every next invocation of a successful handler starts the retries from scratch (from zero).
-        if state.done:
+        if state.done and not state.counts.failure:
             state = progression.State.from_scratch().with_handlers([handler])
 
         # Both `now` and `last_seen_time` are moving targets: the last seen time is updated
